@@ -596,6 +596,8 @@ pub fn driver_set(prop: Prop, thorough: bool) -> Vec<Planned> {
             shapes.push(("E9 O(NaN)O|CCC", Path::Direct, vec![vec![Observe(f64::NAN), Observe(d)], col(3)], Mode::U));
             shapes.push(("E10 Batch(NaN)|CC", Path::Direct, vec![vec![Batch(vec![f64::NAN, a])], col(2)], Mode::U));
             if thorough {
+                // a flusher whose sum update can lose the race four times in a row
+                shapes.push(("E11 Batch|OOOO", Path::Direct, vec![vec![Batch(vec![a])], o(&[b, c, d, f])], Mode::U));
                 shapes.push(("E7 OO|OO|CCC", Path::Direct, vec![o(&[a, d]), o(&[b, f]), col(3)], Mode::B(3)));
                 shapes.push(("E8 O|C|C|C", Path::Direct, vec![o(&[a]), col(1), col(1), col(1)], Mode::B(3)));
             }
@@ -621,7 +623,13 @@ pub fn driver_set(prop: Prop, thorough: bool) -> Vec<Planned> {
 /// Run a planned driver set, falling back from Mode U to Mode B when the cap is hit.
 pub fn run_set(plan: Vec<Planned>, cap: u64, fallback_bound: usize) -> Vec<(String, Mode, ExploreResult)> {
     let mut out = vec![];
+    let only = std::env::var("HIST_ONLY").ok();
     for p in plan {
+        if let Some(f) = &only {
+            if !p.driver.label.contains(f.as_str()) {
+                continue;
+            }
+        }
         let name = p.driver.name();
         let copy = clone_driver(&p.driver);
         let t0 = std::time::Instant::now();
